@@ -92,7 +92,7 @@ type Reply struct {
 
 // Hook, when set, is called before every Write and Read on a reactor connection (the scheduler's branch point).
 // blocked tells the hook that the read has nothing to return yet; the hook must return only when it may proceed.
-var Hook func(c *Reactor, op string)
+var Hook func(c *Reactor, op string, ready func() bool)
 
 // Reactor is a connection to a synchronous scripted peer: bytes written are accumulated; each complete frame is
 // handed to Handler and its reply is queued for Read.
@@ -114,7 +114,7 @@ var errWouldBlock = errors.New("vnet: read on a reactor connection with no reply
 
 func (r *Reactor) Write(p []byte) (int, error) {
 	if Hook != nil {
-		Hook(r, "write")
+		Hook(r, "write", nil)
 	}
 	r.mu.Lock()
 	defer r.mu.Unlock()
@@ -150,7 +150,11 @@ func (r *Reactor) Write(p []byte) (int, error) {
 
 func (r *Reactor) Read(p []byte) (int, error) {
 	if Hook != nil {
-		Hook(r, "read")
+		Hook(r, "read", func() bool {
+			r.mu.Lock()
+			defer r.mu.Unlock()
+			return len(r.out) > 0 || r.closed || r.lclosed
+		})
 	}
 	r.mu.Lock()
 	defer r.mu.Unlock()
@@ -167,6 +171,13 @@ func (r *Reactor) Read(p []byte) (int, error) {
 	n := copy(p, r.out)
 	r.out = r.out[n:]
 	return n, nil
+}
+
+// Idle reports that no request is partially written and no reply is waiting to be read.
+func (r *Reactor) Idle() bool {
+	r.mu.Lock()
+	defer r.mu.Unlock()
+	return len(r.in) == 0 && len(r.out) == 0
 }
 
 // Pending reports whether reply bytes are queued.
@@ -211,3 +222,93 @@ func Frame(b []byte) []byte {
 	copy(out[4:], b)
 	return out
 }
+
+// PipeEnd is one end of an in-memory duplex pipe whose blocking reads are scheduler-visible (BlockHook).
+type PipeEnd struct {
+	name   string
+	mu     sync.Mutex
+	buf    []byte // bytes readable at this end
+	peer   *PipeEnd
+	closed bool // this end closed
+	eof    bool // peer closed
+	// OnData, when set, sees the bytes of every successful Read at this end (before Read returns).
+	OnData func(p *PipeEnd, data []byte)
+}
+
+// PipeHook, when set, is called before every pipe Read (with a readiness predicate) and Write.
+var PipeHook func(p *PipeEnd, op string, ready func() bool)
+
+// NewPipe returns two connected ends.
+func NewPipe(name string) (*PipeEnd, *PipeEnd) {
+	a, b := &PipeEnd{name: name + "/a"}, &PipeEnd{name: name + "/b"}
+	a.peer, b.peer = b, a
+	return a, b
+}
+
+func (p *PipeEnd) Name() string { return p.name }
+
+func (p *PipeEnd) ready() bool {
+	p.mu.Lock()
+	defer p.mu.Unlock()
+	return len(p.buf) > 0 || p.eof || p.closed
+}
+
+func (p *PipeEnd) Read(b []byte) (int, error) {
+	if PipeHook != nil {
+		PipeHook(p, "read", p.ready)
+	}
+	p.mu.Lock()
+	defer p.mu.Unlock()
+	if p.closed {
+		return 0, net.ErrClosed
+	}
+	if len(p.buf) == 0 {
+		if p.eof {
+			return 0, io.EOF
+		}
+		return 0, errWouldBlock
+	}
+	n := copy(b, p.buf)
+	p.buf = p.buf[n:]
+	if p.OnData != nil {
+		p.OnData(p, b[:n])
+	}
+	return n, nil
+}
+
+func (p *PipeEnd) Write(b []byte) (int, error) {
+	if PipeHook != nil {
+		PipeHook(p, "write", nil)
+	}
+	p.mu.Lock()
+	closed := p.closed
+	p.mu.Unlock()
+	if closed {
+		return 0, net.ErrClosed
+	}
+	q := p.peer
+	q.mu.Lock()
+	defer q.mu.Unlock()
+	if q.closed {
+		return 0, io.ErrClosedPipe
+	}
+	q.buf = append(q.buf, b...)
+	return len(b), nil
+}
+
+func (p *PipeEnd) Close() error {
+	p.mu.Lock()
+	p.closed = true
+	p.mu.Unlock()
+	q := p.peer
+	q.mu.Lock()
+	q.eof = true
+	q.mu.Unlock()
+	return nil
+}
+
+func (p *PipeEnd) LocalAddr() net.Addr                { return addr(p.name) }
+func (p *PipeEnd) RemoteAddr() net.Addr               { return addr(p.peer.name) }
+func (p *PipeEnd) SetDeadline(t time.Time) error      { return nil }
+func (p *PipeEnd) SetReadDeadline(t time.Time) error  { return nil }
+func (p *PipeEnd) SetWriteDeadline(t time.Time) error { return nil }
